@@ -3,6 +3,7 @@
    The Facts are the decidable obligations on what gen/facts.py extracted from the sources on this run. *)
 From Coq Require Import List NArith ZArith.
 From SudachiVerif Require Import Model.Codec Proofs.CodecProofs.
+From SudachiVerif Require Import Model.GuardLang Model.CodecConn Proofs.CodecConnProofs Proofs.CodecLexProofs.
 From SudachiVerif Require Generated.FieldOrder.
 Open Scope N_scope.
 
@@ -67,3 +68,39 @@ Theorem C05_wordinfo_roundtrip :
   exists i, get_word_info lx true wid ALL = Some i /\ loaded_as e df i.
 Proof. exact (wordinfo_roundtrip C05_writer_order C05_reader_order C05_len_thresholds). Qed.
 Print Assumptions C05_wordinfo_roundtrip.
+
+(* the words section: for every lexicon the writer lays out at any position of a file below 4 GiB, the reader
+   (Lexicon::parse / WordParams / WordInfos: count, params array, offset table, &bytes[offsets[k]..]) finds for EVERY
+   entry k its own word info at offsets[k], its params at 6k, and reading it through get_word_info and the public
+   accessors gives the declared fields; dictionary-form references lead to the referenced entry of the same lexicon *)
+Theorem C05_lexicon_roundtrip :
+  forall prefix es sec,
+  write_words_section (N.of_nat (List.length prefix)) es = Some sec ->
+  N.of_nat (List.length (prefix ++ sec)) < 4294967296 ->
+  lexicon_wf es ->
+  file_count (prefix ++ sec) (N.of_nat (List.length prefix)) = N.of_nat (List.length es) /\
+  forall k e, nth_error es k = Some e ->
+    (exists i, get_word_info (lexicon_of_file (prefix ++ sec) (N.of_nat (List.length prefix))) true (N.of_nat k) ALL = Some i
+               /\ loaded_as e (declared_dicform es k e) i)
+    /\ file_params (prefix ++ sec) (N.of_nat (List.length prefix)) (N.of_nat k) = Some (e_left e, e_right e, e_cost e).
+Proof. exact (lexicon_roundtrip C05_writer_order C05_reader_order C05_len_thresholds). Qed.
+Print Assumptions C05_lexicon_roundtrip.
+
+(* connection matrix.  Decidable obligation on the facts regenerated from dic/build/conn.rs and dic/connect.rs:
+   write_elem's guards confine left to [0, num_left) and right to [0, num_right); write_elem's index formula is
+   right * num_left + left (up to commutation); ConnectionMatrix::index is THE SAME formula.  A stride changed in
+   only one of the two functions makes this false. *)
+Fact C05_conn_formulas_agree : conn_facts_ok = true.
+Proof. vm_compute. reflexivity. Qed.
+
+(* for every matrix text (any shape, lines in any order, repeated or missing cells) that ConnBuffer accepts, the
+   compiled section read back by Grammar::parse + ConnectionMatrix::cost gives, for every l < num_left and
+   r < num_right, the cost the text declares for (l, r): the last line naming the pair, 0 if none does *)
+Theorem C05_matrix_roundtrip :
+  forall nl nr ls m l r rest,
+  (nl < 32768)%Z -> (nr < 32768)%Z -> forallb cline_ok ls = true ->
+  conn_compile nl nr ls = Some m ->
+  (0 <= l < nl)%Z -> (0 <= r < nr)%Z ->
+  section_cost (conn_section nl nr m ++ rest) l r = Some (declared ls l r).
+Proof. exact (matrix_roundtrip C05_conn_formulas_agree). Qed.
+Print Assumptions C05_matrix_roundtrip.
